@@ -53,12 +53,71 @@ KERNELS = [
     ["cp", 0, ["add", "SE", "WN"], "RQ"],
     ["add", ["cp", 0, "SE", "SE"], "WN"],
 ]
+# sums with a noise component in EVERY position (first / middle / last, two noise terms), built with + and with the constructor,
+# and inside / around a change-point; the signal kernels must be evaluated with THEIR OWN part of the hyper-parameter vector
+NOISE_POS_KERNELS = [
+    ["add", "WN", "SE"],
+    ["add", "HN", "SE"],
+    ["add", "SE", "WN", "SE"],
+    ["add", "RQ", "HN", "SE"],
+    ["add", "WN", "RQ", "WN"],
+    ["add", "HN", "WN", "RQ"],
+    ["add", "WN", "SE", "HN"],
+    ["add", "SE", "WN", "RQ", "HN"],
+    ["comp", "WN", ["comp", "HN", "RQ"]],
+    ["comp", ["comp", "SE", "WN"], "SE"],
+    ["cp", 0, ["add", "WN", "SE"], "RQ"],
+    ["cp", 0, "SE", ["add", "HN", "RQ"]],
+    ["add", "WN", ["cp", 0, "SE", "SE"]],
+    ["add", "HN", ["cp", 0, "SE", "RQ"], "SE"],
+]
+# hyper-parameter regimes OUTSIDE the default optimisation bounds (alpha: (-2, 6); amplitudes: ln sd(y) +- 4; length-scales: a few
+# decades around the point spacing; noise: ln sd(y) - 8 .. + 2): one family of parameters is overwritten, the rest follows the pattern
+REGIMES = [
+    {"alpha": 8.0}, {"alpha": -3.0}, {"alpha": 10.0}, {"alpha": -6.0}, {"alpha": 12.0}, {"alpha": 9.25},
+    {"ls": 1e-3}, {"ls": 1e3}, {"ls": 1e-2}, {"ls": 30.0},
+    {"amp": -10.0}, {"amp": 10.0}, {"amp": "mixed"},
+    {"sig": -12.0}, {"sig": 4.0},
+    {"alpha": 12.0, "ls": 30.0}, {"alpha": 10.0, "amp": -10.0}, {"alpha": -6.0, "ls": 1e-2, "amp": "mixed"},
+]
+REG_KINDS = {"alpha": ("log-alpha",), "ls": ("log-scale",), "amp": ("log-amplitude",), "sig": ("log-sigma", "log-sigma-i")}
 NOISES = ["none", "y_err", "y_cov_diag", "y_cov_full"]
 ND_ALL = [(n, d) for d in (1, 2, 3) for n in (2, 3, 5, 8)] + [(4, 1), (4, 2)]
 DESIGNS = ["regular", "clustered", "permuted"]
 FAR_SHIFTS = [0.0, 1e3, -1e3, 1e6, -1e6]  # in units of the mid-level length-scale
 FAR_SCALES = [1.0, 1e-6, 1e6, 1e-3, 1e3]
 FAR_SCALES_QUICK = [1.0, 1e-6, 1e6]
+
+
+def regime_applies(spec, reg, n=2, d=1):
+    kinds = {inf["kind"] for inf in R.param_info(spec, n, d)}
+    return all(any(k in kinds for k in REG_KINDS[key]) for key in reg)
+
+
+def regime_name(reg):
+    return ",".join(f"{k}={reg[k]:g}" if not isinstance(reg[k], str) else f"{k}={reg[k]}" for k in sorted(reg))
+
+
+def regime_theta(spec, X, theta, reg):
+    """the pattern vector with the regime's values written over the parameters of the named kinds: log-alpha, log-amplitude,
+    log-sigma as given ('mixed': +10 / -10 alternating over the signal leaves); length-scale = ls x the data range of its dimension"""
+    n, d = X.shape
+    theta = np.array(theta, dtype=float)
+    lo, hi = X.min(axis=0), X.max(axis=0)
+    rng = np.where(hi > lo, hi - lo, 1.0)
+    leafno = {}
+    for p, inf in enumerate(R.param_info(spec, n, d)):
+        kd = inf["kind"]
+        if kd == "log-alpha" and "alpha" in reg:
+            theta[p] = reg["alpha"]
+        elif kd == "log-scale" and "ls" in reg:
+            theta[p] = float(np.log(reg["ls"] * rng[inf["dim"]])) + 0.05 * inf["dim"]
+        elif kd == "log-amplitude" and "amp" in reg:
+            j = leafno.setdefault(inf["path"], len(leafno))
+            theta[p] = (10.0 if j % 2 == 0 else -10.0) if reg["amp"] == "mixed" else reg["amp"]
+        elif kd in ("log-sigma", "log-sigma-i") and "sig" in reg:
+            theta[p] = reg["sig"] + (0.1 * inf["point"] if kd == "log-sigma-i" else 0.0)
+    return theta
 
 
 def noise_matrix(kind, n):
@@ -143,6 +202,9 @@ def ev_gp(case):
         Q[0] = X[0]
         y = y * ys
     theta_k = R.theta_for(spec, X, pattern)
+    reg = case.get("regime")
+    if reg:
+        theta_k = regime_theta(spec, X, theta_k, reg)
     if far:
         for p_, inf_ in enumerate(R.param_info(spec, n, d)):
             if inf_["kind"] == "log-scale":
@@ -152,8 +214,14 @@ def ev_gp(case):
     m = Q.shape[0]
     fails, tags, slack, skipped, nev = [], set(), {}, {}, 0
     seen = set()
-    kpre = "far/" if far else ""
-    fardet = {"far": far} if far else {}
+    kpre = "far/" if far else ("regime/" if reg else "")
+    fardet = {"far": far} if far else ({"regime": reg} if reg else {})
+    # rounding of the documented formulas in doubles: (1 + Z/alpha)^-alpha has relative condition alpha w.r.t. the rounding of
+    # 1 + Z/alpha; exp(-Z), the other RQ factors and the logistic weights f, 1 - f carry a few eps absolutely (relative to A^2)
+    pinfo = R.param_info(spec, n, d)
+    kap_a = 1.0 + max([float(np.exp(t)) for inf_, t in zip(pinfo, theta_k) if inf_["kind"] == "log-alpha"] + [0.0])
+    kreg = kap_a if reg else 1.0  # regimes: the entries of K_xx, K_qx themselves carry kap_a eps (the lattice patterns keep alpha <= e^4, within the factor 1e3)
+    amp2 = float(sum(np.exp(2 * t) for inf_, t in zip(pinfo, theta_k) if inf_["kind"] == "log-amplitude"))
 
     def add(key, what, **kw):
         key = kpre + key
@@ -185,10 +253,39 @@ def ev_gp(case):
     dref = np.array([float(Kxx[i][i]) for i in range(n)])
     kself = np.array([float(v) for v in Kself])
     jit = np.diag(Kb) - dref
-    jtol = 64 * EPS * np.abs(dref)
+    # a change-point weight (1-f)^2 A^2 with 1 - f formed by subtraction carries 2 (1-f) eps A^2 <= 2 eps sqrt(A^2 K_ii) absolutely
+    noise2 = max([float(np.exp(2 * t)) for inf_, t in zip(pinfo, theta_k) if inf_["kind"] in ("log-sigma", "log-sigma-i")] + [0.0])
+    jtol = 64 * EPS * (np.abs(dref) + np.sqrt((amp2 + noise2) * np.abs(dref)))
     if (jit < -jtol).any() or (jit > JIT * kself + jtol).any():
         add(f"datacov/{fam}/diagonal-terms", f"{name}: diag(build_covariance) - (formula + noise variances) = {jit.tolist()} outside [0, 1e-10 K_ii]", theta=theta_k, X=X)
     jit = np.clip(jit, 0.0, JIT * kself)
+    # ---- K_qx and K_qq as the regressor obtains them (pairwise evaluation of ITS kernel object with the covariance block of the
+    # hyper-parameter vector) are the documented formula, i.e. belong to the same kernel as K_xx: entry-wise, no conditioning involved
+    Kqq_f = np.array([[float(Kqq[a, b]) for b in range(m)] for a in range(m)])
+    tol_k = 64 * EPS * kap_a * amp2
+    try:
+        with lib("kernel.__call__(q,x)"):
+            Kc_qx = np.asarray(kb(Q.copy(), X.copy(), theta_k.copy()), dtype=float)
+        with lib("kernel.__call__(q,q)"):
+            Kc_qq = np.asarray(kb(Q.copy(), Q.copy(), theta_k.copy()), dtype=float)
+        nev += 2
+    except LibFailure as e:
+        add(f"crosscov/{kcls}/raises:{e.exc_type}", f"{name} d={d}: pairwise evaluation of the kernel at query points raised {e}", traceback=e.tb, theta=theta_k)
+        Kc_qx = Kc_qq = None
+    if Kc_qx is not None and (Kc_qx.shape != (m, n) or Kc_qq.shape != (m, m)):
+        add(f"crosscov/{kcls}/shape", f"{name}: kernel(q, x) has shape {Kc_qx.shape}, kernel(q, q) {Kc_qq.shape} for {m} query and {n} data points")
+        Kc_qx = None
+    if Kc_qx is not None:
+        if sl("crosscov/K_qx", np.abs(Kc_qx - Kqx_f).max(), tol_k) > 1:
+            w_ = np.unravel_index(np.argmax(np.abs(Kc_qx - Kqx_f)), (m, n))
+            add(f"crosscov/{fam}/K_qx-vs-formula", f"{name}: kernel(q, x)[{w_}] = {Kc_qx[w_]!r}, documented formula (the one K_xx follows) {Kqx_f[w_]!r} (tol {tol_k:.3e})", theta=theta_k, X=X, Q=Q)
+        if sl("crosscov/K_qq", np.abs(Kc_qq - Kqq_f).max(), tol_k) > 1:
+            w_ = np.unravel_index(np.argmax(np.abs(Kc_qq - Kqq_f)), (m, m))
+            add(f"crosscov/{fam}/K_qq-vs-formula", f"{name}: kernel(q, q)[{w_}] = {Kc_qq[w_]!r}, documented formula (the one K_xx follows) {Kqq_f[w_]!r} (tol {tol_k:.3e})", theta=theta_k, X=X, Q=Q)
+        # the first query point IS the first training point: its row of K_qx is the row of K_xx (off the diagonal: no noise, no jitter)
+        if n > 1 and sl("crosscov/K_qx-row-vs-K_xx-row", np.abs(Kc_qx[0, 1:] - Kb[0, 1:]).max(), 2 * tol_k) > 1:
+            add(f"crosscov/{fam}/K_qx-row-at-training-point-vs-K_xx-row", f"{name}: kernel(x_0, x_j) = {Kc_qx[0, 1:].tolist()} but build_covariance[0, j] = {Kb[0, 1:].tolist()} (j >= 1)", theta=theta_k, X=X)
+        tags.add(f"crosscov:{name},d={d}" + (f",{regime_name(reg)}" if reg else "") + (",far" if far else ""))
     Abase = mp.matrix(Kxx)
     for i in range(n):
         Abase[i, i] += mpf(float(jit[i]))
@@ -226,7 +323,7 @@ def ev_gp(case):
         W = Ainv * Kqx.T  # n x m
         Cov = Kqq - Kqx * W
         cov_ref = np.array([[float(Cov[a, b]) for b in range(m)] for a in range(m)])
-        ceps = 1e3 * EPS * cond
+        ceps = 1e3 * EPS * cond * kreg
         tol_cov = ceps * np.sqrt(np.outer(prior, prior))
         tol_var = np.diag(tol_cov)
         knorm = np.linalg.norm(Kqx_f, axis=1)
@@ -260,7 +357,7 @@ def ev_gp(case):
                     rnd = lambda P_: abs(float(theta_m[0])) + (np.abs(P_) + np.abs(c_)) @ g_ + (2 * (np.abs(P_) + np.abs(c_)) * np.abs(P_ - c_) + (P_ - c_) ** 2) @ h_
                     mscale = np.array([float(abs(v)) for v in mq]) + rnd(Q)
                     rscale += float(np.linalg.norm(rnd(X)))
-                tol_mu = 1e3 * EPS * (cond * knorm * an + knorm * rscale / sv[-1] + mscale)
+                tol_mu = 1e3 * EPS * (kreg * (cond * knorm * an + knorm * rscale / sv[-1]) + mscale)
                 refs.append((cname, mu_ref, tol_mu))
 
             def check_mean(mu_got, key, what):
@@ -340,6 +437,8 @@ def ev_gp(case):
             if far:
                 tags.add(f"far:{name},d={d},shift={shift:g},xs={xs:g},ys={ys:g},{noise},{mean_name}")
                 tags.add(f"far:cond-decade={int(np.floor(np.log10(cond)))},shift={shift:g}")
+            elif reg:
+                tags.add(f"regime:{name},d={d},{regime_name(reg)},{noise},{mean_name}")
             else:
                 tags.add(f"{name},d={d},n={n},{case['design']},{noise},{mean_name}")
                 tags.add(f"cond-decade={int(np.floor(np.log10(cond)))}")
@@ -650,6 +749,28 @@ def run(ck):
                 for pat in sorted(set(pats)):
                     cases.append({"spec": spec, "n": n, "d": d, "design": des, "pattern": pat, "seed": seed})
     ck.run_cases("gp", cases, chunk=1)
+    # ---- sums with a noise term in every position (simplest first), on a d = 1 and a d >= 2 point set each
+    pmenu = [(3, 1, "regular"), (4, 2, "clustered"), (4, 1, "permuted"), (3, 2, "regular"), (5, 1, "clustered"), (3, 3, "permuted"), (2, 1, "regular"), (5, 2, "permuted")]
+    ncases = []
+    for ki, spec in enumerate(NOISE_POS_KERNELS):
+        sel = [pmenu[(2 * (ki + seed)) % len(pmenu)], pmenu[(2 * (ki + seed) + 1) % len(pmenu)]] if quick else pmenu
+        for j, (n, d, des) in enumerate(sel):
+            for pat in ([(ki + j + seed) % 9] if quick else [(ki + j + seed) % 9, (ki + j + seed + 4) % 9, (ki + j + seed + 8) % 9]):
+                ncases.append({"spec": spec, "n": n, "d": d, "design": des, "pattern": pat, "seed": seed})
+    ck.run_cases("gp", ncases, chunk=1)
+    # ---- hyper-parameter regimes outside the default bounds, for every kernel that has the parameter kind
+    rkern = KERNELS + (NOISE_POS_KERNELS[:6] if quick else NOISE_POS_KERNELS)
+    rcases = []
+    for ri, reg in enumerate(REGIMES):
+        for ki, spec in enumerate(rkern):
+            if not regime_applies(spec, reg):
+                continue
+            sel = [pmenu[(ki + ri + seed) % len(pmenu)]] if quick else [pmenu[(ki + ri + seed + 3 * j) % len(pmenu)] for j in range(3)]
+            for j, (n, d, des) in enumerate(sel):
+                rcases.append({"spec": spec, "n": n, "d": d, "design": des, "pattern": (ki + 2 * ri + j + seed) % 9, "seed": seed, "regime": reg, "perms": not quick and n <= 4})
+    ck.run_cases("gp", rcases, chunk=1)
+    ck.extra["noise_position_kernels"] = [R.spec_name(s) for s in NOISE_POS_KERNELS]
+    ck.extra["regimes"] = {"regimes": [regime_name(r) for r in REGIMES], "kernels": [R.spec_name(s) for s in rkern], "cases": len(rcases)}
     # ---- the same regression problems far from the origin and in other units (simplest first: shifts only, then scales)
     scales = FAR_SCALES_QUICK if quick else FAR_SCALES
     nonunit = [(a, b) for a in scales for b in scales if (a, b) != (1.0, 1.0)]
